@@ -411,6 +411,15 @@ theorem bindCommit_spec (s : State) (pod : Pod) (ns name : String) (uid : Nat) (
         rw [q3.frame.vPods, hl] at hl'
         cases hl'; exact hu.symm
 
+theorem bindCommit_admin (s : State) (pod : Pod) (ns name : String) (uid : Nat) (node : String) (ips : List IP) :
+    (bindCommit s pod ns name uid node ips).1.admin = s.admin := by
+  unfold bindCommit
+  split
+  · dsimp only; split <;> rfl
+  · split
+    · dsimp only; split <;> rfl
+    · dsimp only; split <;> rfl
+
 /-- `bindCommitX` is `bindCommit`, or (dead process) just the counted call -/
 theorem bindCommitX_cases (s : State) (pod : Pod) (ns name : String) (uid : Nat) (node : String) (ips : List IP) :
     bindCommitX s pod ns name uid node ips = (s.api.1, Out.err "crashed") ∨
@@ -431,12 +440,13 @@ theorem bindCommitX_eq (s : State) (pod : Pod) (ns name : String) (uid : Nat) (n
 theorem bind_spec (s : State) (ns name : String) (uid : Nat) (node : String) (ch : Choice) (h : Inv s) (huid0 : uid ≠ 0) :
     PInv (bind Facts.good s ns name uid node ch).1 ∧
     (s.crashMode = false → Inv (bind Facts.good s ns name uid node ch).1) ∧
-      UnassignsWithin s (bind Facts.good s ns name uid node ch).1 (fun _ => False) := by
-  have base : PInv s ∧ (s.crashMode = false → Inv s) ∧ UnassignsWithin s s (fun _ => False) :=
-    ⟨h.toPInv, fun _ => h, UnassignsWithin.refl s _⟩
-  have ofInv : ∀ t, Inv t → UnassignsWithin s t (fun _ => False) →
-      PInv t ∧ (s.crashMode = false → Inv t) ∧ UnassignsWithin s t (fun _ => False) :=
-    fun t ht hl => ⟨ht.toPInv, fun _ => ht, hl⟩
+      UnassignsWithin s (bind Facts.good s ns name uid node ch).1 (fun _ => False) ∧
+      (bind Facts.good s ns name uid node ch).1.admin = s.admin := by
+  have base : PInv s ∧ (s.crashMode = false → Inv s) ∧ UnassignsWithin s s (fun _ => False) ∧ s.admin = s.admin :=
+    ⟨h.toPInv, fun _ => h, UnassignsWithin.refl s _, rfl⟩
+  have ofInv : ∀ t, Inv t → UnassignsWithin s t (fun _ => False) → t.admin = s.admin →
+      PInv t ∧ (s.crashMode = false → Inv t) ∧ UnassignsWithin s t (fun _ => False) ∧ t.admin = s.admin :=
+    fun t ht hl hadm => ⟨ht.toPInv, fun _ => ht, hl, hadm⟩
   unfold bind
   split
   · exact base
@@ -496,7 +506,7 @@ theorem bind_spec (s : State) (ns name : String) (uid : Nat) (node : String) (ch
               have f := tA.frame
               refine ⟨⟨by rw [f.pods, f.nextUid]; exact h.podsWF, by rw [f.pods]; exact h.uidUniq,
                 by rw [f.nextUid]; exact h.uidPos, by rw [f.pods]; exact h.podsNodup, ?_, ?_⟩, fun hcm => ?_,
-                UnassignsWithin.of_plog_eq _ sp.plog⟩
+                UnassignsWithin.of_plog_eq _ sp.plog, f.admin⟩
               · intro q hq hd hm
                 rw [f.pods] at hq
                 obtain ⟨r, g1, g2, g3⟩ := h.safe.own q hq hd hm
@@ -540,11 +550,11 @@ theorem bind_spec (s : State) (ns name : String) (uid : Nat) (node : String) (ch
                     ((bindAlloc s pod node { policy := policyOf pod, node := node, uid := pod.uid } infos
                       ch.pick).2.2.filterMap id) with e | e
                 · rw [e]
-                  exact ofInv _ (hiB.quiet (api_quiet _)) (lgB.trans (UnassignsWithin.of_plog_eq _ rfl))
+                  exact ofInv _ (hiB.quiet (api_quiet _)) (lgB.trans (UnassignsWithin.of_plog_eq _ rfl)) f.admin
                 · rw [e]
                   have cm := bindCommit_spec _ pod ns name uid node _ hiB (by rw [f.vPods]; exact hl) huid0 hluid hown
-                  exact ofInv _ cm.1 (lgB.trans (UnassignsWithin.of_plog_eq _ cm.2))
-              · exact ofInv _ hiB lgB
+                  exact ofInv _ cm.1 (lgB.trans (UnassignsWithin.of_plog_eq _ cm.2)) ((bindCommit_admin _ _ _ _ _ _ _).trans f.admin)
+              · exact ofInv _ hiB lgB tAB.frame.admin
 
 theorem assumed_bind {s : State} {ns name : String} {uid : Nat} {node : String} {ch : Choice} {f pf : Nat}
     (ha : assumed s (.bind ns name uid node ch f pf) = true) : uid ≠ 0 := by
